@@ -570,6 +570,65 @@ fn run_park(c: &Case, g: usize) -> Result<String, String> {
     Ok(format!("pre={} parked={} later={}", if pre.is_empty() { "-".into() } else { pre.join("|") }, r1, later.join("|")))
 }
 
+// rel=1: the stream of a HIGH-LEVEL puller (pull_to_vec over Client / AsyncClient / WebSocketClient) is
+// released in the middle of the pull: the producer emits g bytes and waits at a gate; once it is
+// parked (and `lag` ms later, so that the puller has drained what there is and its following `next`
+// is parked or about to be sent) a SECOND connection sends request-form cancels for the stream
+// (a fresh server: the stream has id 1; ids 1..3 are covered), waits for the acknowledgements, asks
+// for a `next` of id 1 itself and only then opens the gate.  At least two chunks of the stream do
+// not exist yet when the release is acknowledged, so the puller needs a `next` after the release.
+fn run_rel(c: &Case, g: usize, lag: u64) -> Result<String, String> {
+    let n = c.n as usize;
+    if c.kind != 4 || c.z || c.f != "-" || c.w != "-" || lag > 2000 || g > c.data.len() || c.data.len() < g + 2 * n { return Err("badcase:rel".into()); }
+    let gate = gate_new();
+    let opener = GateOpener(gate.clone());
+    let parked = gate_new();
+    let (pg, pp, payload) = (gate.clone(), parked.clone(), Arc::new(c.data.clone()));
+    let router = Router::new().with_writer_stream(BodyFormat::RawBinary, move |_resource: &str| {
+        let (gate, parked, payload) = (pg.clone(), pp.clone(), payload.clone());
+        Some(move |w: &mut dyn Write| -> io::Result<()> {
+            w.write_all(&payload[..g])?; w.flush()?;
+            GateOpener(parked).open();
+            gate_wait(&gate);
+            w.write_all(&payload[g..])
+        })
+    }, opts(c.n, c.d, false));
+    let res = resource(c);
+    let addr = if c.pull == 2 { net::start_ws(repe::WebSocketServer::new(router)) } else { net::start_tcp(router) };
+    // the puller, on its own thread / task, reports through a channel
+    let (tx, rx) = std::sync::mpsc::channel::<String>();
+    match c.pull {
+        0 => {
+            let cl = retry(|| Client::connect(addr))?;
+            std::thread::spawn(move || { let _ = tx.send(hl(Some(repe::pull_to_vec(&cl, &res).map_err(|e| e.to_string())))); });
+        }
+        1 => {
+            let cl = async_client(addr)?;
+            net::runtime().spawn(async move {
+                let r = match tokio::time::timeout(T_WAIT, repe::pull_to_vec_async(&cl, &res)).await { Err(_) => hl(None), Ok(r) => hl(Some(r.map_err(|e| e.to_string()))) };
+                let _ = tx.send(r);
+            });
+        }
+        _ => {
+            let cl = ws_client(addr)?;
+            net::runtime().spawn(async move {
+                let r = match tokio::time::timeout(T_WAIT, repe::pull_to_vec_async(&cl, &res)).await { Err(_) => hl(None), Ok(r) => hl(Some(r.map_err(|e| e.to_string()))) };
+                let _ = tx.send(r);
+            });
+        }
+    }
+    // the producer is parked at the gate: the stream is open and g bytes are on their way
+    { let (m, cv) = &*parked; let mut p = m.lock().unwrap_or_else(|e| e.into_inner()); let t0 = std::time::Instant::now();
+      while !*p { if t0.elapsed() >= T_WAIT { return Err("rel:producer-never-parked".into()); } p = cv.wait_timeout(p, Duration::from_millis(50)).unwrap_or_else(|e| e.into_inner()).0; } }
+    std::thread::sleep(Duration::from_millis(lag));
+    let mut b = if c.pull == 2 { RawPeer { raw: Raw::Ws(retry(|| RawWs::connect(addr))?), id: 500 } } else { RawPeer { raw: Raw::Tcp(retry(|| RawTcp::connect(addr))?), id: 500 } };
+    for sid in 1..=3u64 { b.cancel(sid)?; }
+    let ac = b.next(1)?;
+    opener.open();
+    let vec = rx.recv_timeout(T_WAIT + Duration::from_secs(2)).unwrap_or_else(|_| "timeout".into());
+    Ok(format!("vec={vec} ac={ac}"))
+}
+
 // early=<mode>: a puller whose decoder is done long before the stream ends (1: the wrong element
 // type, rejected at the header; 2: a consumer that reads a 10-byte prefix; 3: a consumer that fails
 // without reading).  The puller has returned, so the stream is released: raw `next` requests over the
@@ -673,6 +732,7 @@ fn run_case(line: &str) -> String {
     if c.n == 0 || c.kind > 4 || c.pull > 2 || !["err", "panic", "eof", "pipe", "reset", "inval"].contains(&c.fk.as_str()) { return "crash=badcase:range".into(); }
     let special: Option<Box<dyn FnOnce(&Case) -> Result<String, String> + std::panic::UnwindSafe>> =
         if f.get("park").map(|p| p == "1").unwrap_or(false) { let g = f.get("g").and_then(|s| ph(s)).unwrap_or(0) as usize; Some(Box::new(move |c: &Case| run_park(c, g))) }
+        else if f.get("rel").map(|p| p == "1").unwrap_or(false) { let g = f.get("g").and_then(|s| ph(s)).unwrap_or(0) as usize; let lag = f.get("lag").and_then(|s| ph(s)).unwrap_or(0); Some(Box::new(move |c: &Case| run_rel(c, g, lag))) }
         else if let Some(mode) = f.get("early").and_then(|s| ph(s)) { Some(Box::new(move |c: &Case| run_early(c, mode))) }
         else { None };
     if let Some(run) = special {
@@ -845,6 +905,15 @@ fn gen_cases(seed: u64, thorough: bool) -> Vec<String> {
             let i = lines.len();
             lines.push(format!("i={i} early={mode} kind={kind} el={el} pull={pull} n={} d={} z=0 data={} w=- f=- fk=err cj=0 slp=0 vm={} vs={}",
                 hx(n), hx(d), hex(&data), hx(if kind <= 2 { m } else { 0 }), hx(if kind <= 2 { vs } else { 0 })));
+        }
+    }
+    // a stream released from a second connection in the middle of a high-level pull (blocking / async /
+    // WebSocket pull_to_vec), the producer waiting at a gate after g bytes: (n, depth, chunks, g, lag ms)
+    for (n, d, chunks, g, lag) in [(8u64, 1u64, 12u64, 24u64, 200u64), (8, 0, 12, 8, 200), (64, 2, 8, 192, 0), (256, 1, 7, 768, 150), (1, 2, 9, 3, 200), (16, 3, 10, 40, 0), (4096, 1, 5, 8192, 200), (8, 2, 6, 0, 100)] {
+        for pull in [0u64, 1, 2] {
+            let i = lines.len();
+            lines.push(format!("i={i} rel=1 g={} lag={} kind=4 el=0 pull={pull} n={} d={} z=0 data={} w=- f=- fk=err cj=0 slp=0 vm=0 vs=0",
+                hx(g), hx(lag), hx(n), hx(d), hex(&rng.bytes((n * chunks + n / 2) as usize))));
         }
     }
     lines
